@@ -225,6 +225,11 @@ func (s *Server) handleValidate(next http.Handler) http.Handler {
 			"source=", getSourceName(r),
 			"key=", getKey(r),
 		)
+		if source := getSourceName(r); source == "." || source == ".." {
+			log.Debug("STS request rejected: invalid source name")
+			w.WriteHeader(http.StatusBadRequest)
+			return
+		}
 		gateKeeper := s.getGateKeeper(r)
 		if gateKeeper == nil {
 			log.Debug("STS request rejected: missing gatekeeper")
@@ -421,6 +426,34 @@ func rootRelativePath(relPath string) string {
 	return relPath
 }
 
+// isConfinedName reports whether a name received from a client stays inside
+// the directory it is going to be joined to (no absolute paths and no parent
+// directory segments, whichever separator is used)
+func isConfinedName(name string) bool {
+	if strings.HasPrefix(name, "/") || strings.HasPrefix(name, `\`) || filepath.IsAbs(name) {
+		return false
+	}
+	for _, segment := range strings.FieldsFunc(name, func(r rune) bool {
+		return r == '/' || r == '\\'
+	}) {
+		if segment == ".." {
+			return false
+		}
+	}
+	return true
+}
+
+func arePartsConfined(parts []sts.Binned) bool {
+	for _, p := range parts {
+		if !isConfinedName(p.GetName()) ||
+			!isConfinedName(p.GetRenamed()) ||
+			!isConfinedName(p.GetPrev()) {
+			return false
+		}
+	}
+	return true
+}
+
 func (s *Server) routePartials(w http.ResponseWriter, r *http.Request) {
 	if r.Method != http.MethodGet {
 		w.WriteHeader(http.StatusMethodNotAllowed)
@@ -484,6 +517,11 @@ func (s *Server) routeValidate(w http.ResponseWriter, r *http.Request) {
 		if sep != "" {
 			f.Name = filepath.Join(strings.Split(f.Name, sep)...)
 		}
+		if !isConfinedName(f.Name) {
+			log.Error("STS validate request rejected: file name outside of source area")
+			w.WriteHeader(http.StatusBadRequest)
+			return
+		}
 		respMap[f.Name] = gateKeeper.GetFileStatus(f.GetName(), f.GetStarted())
 	}
 	respJSON, _ := json.Marshal(respMap)
@@ -535,6 +573,11 @@ func (s *Server) routeData(w http.ResponseWriter, r *http.Request) {
 		return
 	}
 	parts := decoder.GetParts()
+	if !arePartsConfined(parts) {
+		log.Error("STS data request rejected: file name outside of source area")
+		w.WriteHeader(http.StatusBadRequest)
+		return
+	}
 	gateKeeper := s.getGateKeeper(r)
 	gateKeeper.Prepare(parts)
 	index := 0
@@ -611,6 +654,11 @@ func (s *Server) routeDataRecovery(w http.ResponseWriter, r *http.Request) {
 	}
 	gateKeeper := s.getGateKeeper(r)
 	parts := decoder.GetParts()
+	if !arePartsConfined(parts) {
+		log.Error("STS data-recovery request rejected: file name outside of source area")
+		w.WriteHeader(http.StatusBadRequest)
+		return
+	}
 	n := gateKeeper.Received(parts)
 	log.Debug("STS data-recovery request complete:", "source=", source, "partsReceived=", n)
 	w.Header().Add(HeaderPartCount, strconv.Itoa(n))
